@@ -93,6 +93,9 @@ func c03Oracle(w *c03World) {
 				w.fail("c03:fifo-order", fmt.Sprintf("generation %d: consumer received %s out of order (expected order %v, received %v)", gi+1, t.ID, order, c03IDs(g.Taken)))
 				break
 			}
+			if len(t.Data) == 0 {
+				w.fail(w.emptySig, fmt.Sprintf("generation %d: consumer received an EMPTY chunk under the name %s (file at start-up: %d bytes): a zero-length chunk must be dropped and counted, not forwarded", gi+1, t.ID, len(g.DirAtStart[t.ID])))
+			}
 			if isDir[t.ID] || string(orig[t.ID]) != string(t.Data) {
 				w.fail("c03:fifo-bytes", fmt.Sprintf("generation %d: consumer received chunk %s with bytes %x, original %x", gi+1, t.ID, t.Data, orig[t.ID]))
 			}
@@ -398,8 +401,36 @@ func c03Gen(g *Gen) {
 				for b.try(bufOp{opTake, 0, 0, 0}) {
 					b.try(bufOp{opConsumed, 0, 0, 0})
 				}
+				b.try(bufOp{opProbe, 0, 0, 0})
 				b.shutdown(100)
 				b.emit("directed-overflow")
+			}
+		}
+	}
+	// (2b) start-up directories with an EMPTY file under a valid chunk name at every queue position (and a good
+	// file everywhere else): the empty one is dropped and counted, never offered; the others are delivered
+	for nfiles := 1; nfiles <= 4; nfiles++ {
+		for pos := 0; pos < nfiles; pos++ {
+			for _, M := range []int64{1, 3} {
+				for _, Q := range []int64{int64(nfiles), int64(nfiles) + 2, int64(pos) + 1} {
+					b := newC03Builder(g)
+					for j := 0; j < nfiles; j++ {
+						name := b.p([]byte(fmt.Sprintf("e%d%d%02d.ff", nfiles, pos, j)))
+						if j == pos {
+							b.try(bufOp{opTamper, name, 1, b.p([]byte{})})
+						} else {
+							b.try(bufOp{opTamper, name, 1, b.p(r.Bytes(r.Range(1, 9), []byte("abcdefgh")))})
+						}
+					}
+					b.try(bufOp{opRestart, Q, M, 100000})
+					b.try(bufOp{opRegister, 0, 0, 0})
+					for k := 0; k < nfiles+1 && b.try(bufOp{opTake, 0, 0, 0}); k++ {
+						b.try(bufOp{opConsumed, 0, 0, 0})
+					}
+					b.try(bufOp{opProbe, 0, 0, 0})
+					b.shutdown(100)
+					b.emit("recovery-empty-file")
+				}
 			}
 		}
 	}
@@ -419,6 +450,7 @@ func c03Gen(g *Gen) {
 				b.try(bufOp{opConsumed, 0, 0, 0})
 			}
 		}
+		b.try(bufOp{opProbe, 0, 0, 0})
 		b.shutdown(r.PickInt([]int{0, 50, 100}))
 		if r.Bool() {
 			Q, M, maxb = b.params()
